@@ -272,6 +272,6 @@ pub fn def() -> PropDef {
         level: "exploration",
         rule: "1-4 (thorough 5) concurrent writers x 1-6 (10) batches of 1-6 rows; 6 schema variants (Int64 / Timestamp(ns) / Timestamp(ns,UTC) timestamps, 0-3 nullable labels, f64 and/or i64 values incl. +-0, NaN, +-inf, limits, empty / non-ASCII strings), unique row ids; base timestamps of either sign up to 2^62, <=72 h span; flush_row_count 1-8, sometimes a tiny buffer (back-pressure), optional WAL, optional flush timer, final shutdown flush; interleaving = generated schedule over every chunk upload and catalog request; LocalMetadataClient (gated per call) or ObjectStoreMetadataClient. Non-trivial = at least 2 flushes and (schema alternation or >= 2 writers).",
         assumptions: &["no crashes, storage errors or shard splits (that is C01 / C15)", "broadcast capacity (1024) exceeds the number of flushes"],
-        subs: || vec![Box::new(Sub::<Case> { name: "ingest", cases: |t| t.scale(8_000, 8), strategy, exec })],
+        subs: || vec![Box::new(Sub::<Case> { name: "ingest", cases: |t| t.scale(20_000, 6), strategy, exec })],
     }
 }
